@@ -7,7 +7,8 @@ whether it carries an `/SMask`.
 Pillow itself is a parameter: the input is what `Image.open` reports (mode, transparency info,
 format, APP14 segment), and two facts about Pillow are assumed and exercised by the correspondence:
 `Image.convert` returns an image whose `.format` is `None`, and which modes `save(format='PNG')` /
-`save(format='JPEG')` accept (`pngWritable`, `jpegWritable`; other modes raise `OSError`).
+`save(format='JPEG')` accept (`pngWritable`, `jpegWritable`; other modes raise `OSError`, which the
+loader `get_image_from_uri` turns into "image not loaded": `loadRaster`).
 Pixel values are not modelled; `faithful` says for which outcomes the embedded stream is a plain
 8-bit Gray/RGB(+alpha) PNG stream of the normalised image, which the harness then checks by decoding.
 No Mathlib: linked into `driver_c13`.
@@ -148,5 +149,19 @@ def embed (s : Src) (o : Opts) : Except Err (Raster × XObject) :=
   match rasterInit s o with
   | .ok r => .ok (r, xObject r)
   | .error e => .error e
+
+/-- The raster branch of `get_image_from_uri` once `Image.open` has succeeded (repair d7dc388):
+`try: image = RasterImage(...) except Exception as exception: raise ImageLoadingError.from_exception(…)`,
+and the outer `except (URLFetchingError, ImageLoadingError)` logs "Failed to load image" and returns
+`None`: an image that Pillow opens but cannot re-encode is *not loaded* (the caller renders the
+alternative text), it no longer aborts the rendering.  `none` = `None`. -/
+def loadRaster (s : Src) (o : Opts) : Option Raster :=
+  match rasterInit s o with
+  | .ok r => some r
+  | .error _ => none
+
+/-- `get_image_from_uri` then `get_x_object(interpolate, 1)` on the loaded image. -/
+def loadEmbed (s : Src) (o : Opts) : Option (Raster × XObject) :=
+  (loadRaster s o).map (fun r => (r, xObject r))
 
 end Wp.RasterEmbed
